@@ -86,19 +86,30 @@ class C01(Prop):
                 c["S"] = mk({1: (nd,), 2: (ns, nd), 3: (bs, ns, nd)}[rs])
                 c["kind"] = "cc/F%d/S%d/%s/%s" % (rf, rs, dk, "tz" if trapz else "sum")
             elif entry == "integral":
-                r = rng.choice([1, 2, 2, 3])
-                axis = -1
-                if r == 2 and rng.random() < 0.4:
-                    axis = 0
-                shape = {1: (nd,), 2: (ns, nd), 3: (rng.randint(1, 3), ns, nd)}[r]
-                if axis == 0:
-                    shape = (nd, ns)
-                c["S"] = mk(shape); c["F"] = [0.0]
-                c["axis"] = axis; c["keepdims"] = rng.random() < 0.3; c["trapz"] = True
+                r = rng.choice([1, 2, 2, 3, 3])
+                axis = rng.randrange(r)
+                shape = [rng.randint(1, 4) for _ in range(r)]
+                if rng.random() < 0.3:
+                    shape = [shape[0]] * r          # equal sizes: transposition bugs keep the shape
+                shape[axis] = nd
+                if rng.random() < 0.5:
+                    axis_arg = axis - r             # negative form
+                else:
+                    axis_arg = axis
+                c["S"] = mk(tuple(shape)); c["F"] = [0.0]
+                c["axis"] = axis_arg; c["axis_pos"] = axis; c["keepdims"] = rng.random() < 0.3; c["trapz"] = True
                 c["kind"] = "integral/r%d/axis%d/%s" % (r, axis, dk)
             else:
                 rs = rng.choice([1, 2, 2])
                 c["F"] = mk((nf, nd)); c["S"] = mk({1: (nd,), 2: (ns, nd)}[rs]); c["trapz"] = True
+                if rng.random() < 0.5 and nd >= 4:
+                    # band-limited filters: exactly zero at leading / trailing samples
+                    Fz = np.array(c["F"]); a0 = rng.randint(0, 2); a1 = rng.randint(0, 2)
+                    if a0:
+                        Fz[:, :a0] = 0.0
+                    if a1:
+                        Fz[:, nd - a1:] = 0.0
+                    c["F"] = Fz.tolist()
                 c["kind"] = "estimator/S%d/%s" % (rs, dk)
             cases.append(c)
         return cases
@@ -116,6 +127,8 @@ class C01(Prop):
             if case["keepdims"]:
                 if np.ndim(r) != a.ndim:
                     return {"error": "KeepdimsShape", "msg": "keepdims result rank %d" % np.ndim(r)}
+                if np.shape(r)[case["axis_pos"]] != 1:
+                    return {"error": "KeepdimsShape", "msg": "keepdims result shape %s" % (np.shape(r),)}
                 r = np.squeeze(r, axis=case["axis"])
         else:
             est = dreye.ReceptorEstimator(np.array(case["F"], dtype=float), domain=dom_in)
@@ -123,9 +136,9 @@ class C01(Prop):
         return {"value": np.asarray(r, dtype=float).tolist()}
 
     def emit(self, case, out):
-        kind = {"calculate_capture": 0, "estimator": 0, "integral": 1}[case["entry"]]
-        if case["entry"] == "integral" and case["axis"] == 0:
-            kind = 2
+        kind = 0
+        if case["entry"] == "integral":
+            kind = 1 + case["axis_pos"]
         dom = case["domain"]
         d = "(Capture.Xs %s)" % qv(dom) if isinstance(dom, list) else "(Capture.Dx %s)" % q(dom)
         tol = "tol_arb" if case["arb"] else "tol_exact"
@@ -137,9 +150,13 @@ class C01(Prop):
     def expected(self, case):
         F_, S_ = np.array(case["F"], dtype=float), np.array(case["S"], dtype=float)
         if case["entry"] == "integral":
-            a = S_ if case["axis"] == -1 else S_.T
-            flat = a.reshape(-1, a.shape[-1])
-            return np.array([finteg(case, r) for r in flat], dtype=object).reshape(a.shape[:-1])
+            ax = case["axis_pos"]
+            oshape = S_.shape[:ax] + S_.shape[ax + 1:]
+            res = np.empty(oshape, dtype=object)
+            for idx in (np.ndindex(*oshape) if oshape else [()]):
+                full = idx[:ax] + (slice(None),) + idx[ax:]
+                res[idx] = finteg(case, S_[full])
+            return res
         def c22(Fm, Sm):
             return [[finteg(case, [Fraction(a) * Fraction(b) for a, b in zip(f, s)]) for f in Fm] for s in Sm]
         if F_.ndim == 1 and S_.ndim == 1:
